@@ -542,7 +542,10 @@ def casadi_stage(rep, broken, exe, tier):
         return
     bad = 0
     for op, out in zip(ops, outs):
-        msg = casadi_monitor(op, out)
+        try:
+            msg = casadi_monitor(op, out)
+        except Exception as e:   # a monitor crash must not look like a pass
+            msg = f'monitor crashed on output {out[:80]!r}: {e!r}'
         if msg:
             rep.violation('monitor(casadi): ' + msg, {'op': op, 'impl_out': out}, True)
             bad += 1
@@ -553,8 +556,8 @@ def casadi_stage(rep, broken, exe, tier):
 
 
 def casadi_monitor(op, out):
-    if out.startswith('exception') or out == 'bad-op':
-        return f'unexpected {out}'
+    if out.startswith('exception') or out == 'bad-op' or out.startswith('notimpl'):
+        return f'generated module reached through CasADiProblem: unexpected {out[:120]}'
     t = T(op); t.tok()
     x = t.vec(); prm = t.vec(); y = t.vec(); S = t.vec(); lb = t.vec(); ub = t.vec()
     o = T(out)
